@@ -45,9 +45,9 @@ def spec_items(text):
     unclosed = None
     if inq:
         last = fields.pop().lstrip(' \t')
-        if not last.startswith('"') or '"' in last[1:] or last == '"':
-            return None                      # (a lone quote at the end of the statement: the grammar rejects it; not judged)
-        unclosed = last[1:]
+        if not last.startswith('"') or '"' in last[1:]:
+            return None
+        unclosed = last[1:]                  # (a lone quote at the end of the statement: an unclosed item that is empty)
     items = []
     for f in fields:
         t = f.strip(' \t')
@@ -234,7 +234,18 @@ def build_source(rng, lines, events, nops):
             decl.append(text + ':' if not text.isdigit() else text + ' REM')
         else:
             decl.append(text)
-    decl = [d for d in decl]
+    # procedures between the DATA statements and labels of the main program: they are not part of its text order
+    # (a DATA statement after a procedure still belongs to the last label in front of it)
+    # (a procedure is one element of `decl`: the body of the main program is never placed inside it)
+    if rng.random() < 0.4:
+        withp, np_ = [], 0
+        for d in decl:
+            withp.append(d)
+            if rng.random() < 0.35:
+                np_ += 1
+                withp.append('\n'.join([f'SUB zp{np_}', '  PRINT "never"', 'END SUB'] if rng.random() < 0.5 else
+                                       [f'FUNCTION zf{np_}%', f'  zf{np_}% = 1', 'END FUNCTION']))
+        decl = withp
     if place == 'before':
         src = decl + body
     elif place == 'after':
@@ -320,6 +331,11 @@ def run(chk):
     # read), several labels in front of one DATA statement, a label between two DATA statements
     fixed = []
     for evs, opsf in [
+        # (procedures between the statements: 'P' renders a SUB, and is no event of the main program)
+        ([('D', ['1']), ('L', 'lab'), ('D', ['2']), ('P',), ('D', ['3'])],
+         [('R', 'INTEGER'), ('R', 'INTEGER'), ('R', 'INTEGER'), ('T', 'lab'), ('R', 'INTEGER'), ('R', 'INTEGER')]),
+        ([('D', ['1']), ('L', 'a'), ('P',), ('D', ['3']), ('L', 'b')], [('T', 'a'), ('R', 'INTEGER'), ('T', 'b'), ('R', 'INTEGER')]),
+        ([('L', 'a'), ('P',), ('P',), ('D', ['5', '6'])], [('T', 'a'), ('R', 'INTEGER'), ('R', 'INTEGER')]),
         ([('L', 'first'), ('D', ['10', '20']), ('L', 'second'), ('D', ['30']), ('L', 'last')],
          [('R', 'INTEGER'), ('R', 'INTEGER'), ('R', 'INTEGER'), ('T', 'last'), ('R', 'STRING')]),
         ([('D', ['1']), ('L', 'tail')], [('T', 'tail'), ('R', 'INTEGER')]),
@@ -327,8 +343,14 @@ def run(chk):
          [('T', 'b'), ('R', 'INTEGER'), ('T', 'a'), ('R', 'INTEGER'), ('R', 'INTEGER'), ('T', 'd'), ('R', 'INTEGER')]),
         ([('D', ['1', '2']), ('L', 'mid'), ('D', ['3'])], [('R', 'INTEGER'), ('T', 'mid'), ('R', 'INTEGER'), ('R', 'INTEGER')]),
     ]:
-        flines = [('label', e[1]) if e[0] == 'L' else ('data', 'DATA ' + ','.join(e[1])) for e in evs]
-        decl = [(t + ':') if k == 'label' else t for k, t in flines]
+        flines = [('label', e[1]) if e[0] == 'L' else ('proc', '') if e[0] == 'P' else ('data', 'DATA ' + ','.join(e[1])) for e in evs]
+        decl = []
+        for k, t in flines:
+            if k == 'proc':
+                decl += [f'SUB zq{len(decl)}', '  PRINT "never"', 'END SUB']
+            else:
+                decl.append((t + ':') if k == 'label' else t)
+        evs = [e for e in evs if e[0] != 'P']
         body, fops, kk = [], [], 0
         for op in opsf:
             if op[0] == 'T':
